@@ -18,7 +18,6 @@ for p in props:
     if not hs or not c or c.get("not_applicable"):
         na.append({"property_id": pid, "reason": (c or {}).get("not_applicable", "check under construction (no harness committed yet)")})
         continue
-    nq = len([s for s in hs if s["tier"] == "quick"])
     checks.append({
         "property_id": pid,
         "quick_cmd": "./check %s --tier quick" % pid,
